@@ -212,7 +212,7 @@ MANIFEST = dict(
           "to flip the target iff at least half of the controls are 1 (C05_majority, C05_majority_degrees). Tie: gate-by-gate comparison, inside Coq, of the "
           "models with the flattened definitions for k up to 16/48 (vchain: all flags, 1-3 targets, patterns) and 24/64 (LinearMcx) - instances of >100 qubits "
           "that no simulator reaches; translated degree list executed against CPython for n<=64/128. Direct evaluation by random-state evolution supplies replays. "
-          "PARTIAL: the action_only tail of McxVchainDirty alone (outside LinearMcx) and the <=3-control branches that are single Qiskit gates are corresponded and evaluated, not proved."),
+          "the action_only V-chain on its own is the exact one up to an invertible circuit off the target (C05_vchain_action_only). PARTIAL: the <=3-control branches that are single Qiskit gates are taken as ideal."),
     note="Modelled, not verified: Qiskit's x/cx/ccx/c3x/c4x/mcx/u gates and circuit composition (append of sub-circuits on qubit lists, mirrored by `relabel`).",
     technique="Coq proof (monomial-operator sandwich induction; placement extension; Lemma-9 composition; X-conjugation; Pascal/triangular induction) + translator-regenerated model + gate-list correspondence in Coq (vm_compute) + numpy state evolution",
     design_ref="DESIGN.md section 4, C05")
